@@ -37,6 +37,8 @@ pins compare it (`<fn>.lets = pin_lets_<fn>`), the semantic modules its callee n
 `let weight = weight_by_iok(0, $3, $4); if weight > max { Err }` with swapped arguments now breaks the pin.
 Phase 5: the guards of ASSIGNMENTS to locals seed the closure too (unit functions that drive a loop by flags, e.g.
 `Chain::check_orphans`), and the area `ChainApi` reads 13 methods of `impl Chain` in chain/src/chain.rs.
+Phase 6: area `Txhs` = the extension wrappers and archive functions of chain/src/txhashset/txhashset.rs (free functions);
+the commit / discard decision is stated over it in Props/XlateShapeTxhsFacts.lean.
 
 WHAT IS TRUSTED / NOT SEEN.  This is a syntactic reading, not a Rust front end: it does not know types (a discarded
 call is reported whether or not it returns a `Result`), does not expand macros, does not follow calls (each callee
@@ -88,6 +90,11 @@ TARGETS = [
         "process_block", "is_known", "check_orphan", "process_block_single", "process_block_header",
         "sync_block_headers", "check_orphans", "reset_chain_head", "validate_tx", "verify_coinbase_maturity",
         "verify_tx_lock_height", "set_txhashset_roots", "compact")
+] + [
+    # phase 6: the extension wrappers of txhashset.rs (commit / discard decision) and the archive functions
+    ("Txhs", TXH, None, None, f, "txhs_" + f) for f in (
+        "extending", "extending_readonly", "header_extending", "header_extending_readonly", "utxo_view",
+        "rewindable_kernel_view", "zip_read", "zip_write", "txhashset_replace")
 ] + [
     ("Core", BLOCK, "Block", None, f, "block_" + f) for f in (
         "validate_read", "validate", "verify_coinbase", "verify_kernel_lock_heights",
